@@ -127,7 +127,7 @@ Lite(F) == LiteF(F.train.rows, F.train.pats, F.test.rows, F.test.pats, F.ceil.ro
                  F.hasCeil, F.trainIdx, F.testIdx)
 LiteSeq(FF) == [f \in DOMAIN FF |-> Lite(FF[f])]
 
-PermsN(n, lvl) == CASE lvl >= 2 -> Perms(n)
+PermsN(n, lvl) == CASE lvl = 2 -> Perms(n)
                     [] lvl = 1 -> {p \in Perms(n) : p = Ident(n) \/ p = [k \in 1..n |-> n + 1 - k] \/ p = [k \in 1..n |-> (k % n) + 1]}
                     [] lvl = 0 -> {p \in Perms(n) : p = Ident(n) \/ p = [k \in 1..n |-> n + 1 - k]}
                     [] OTHER -> {Ident(n)}
@@ -306,9 +306,10 @@ Aggregate ==
   /\ phase' = "done"
   /\ UNCHANGED <<smp, draw, sample, rep, sets, theta, pred, pend, pnc, ev, nst, log>> /\ Frozen
 
-ENext == \/ \E d \in DrawChoices(rc) : Draw(d)
+\* (guards repeated in front of the quantifiers so that TLC does not build the choice sets in vain)
+ENext == \/ phase \in {"start", "stored"} /\ smp < rc.N /\ \E d \in DrawChoices(rc) : Draw(d)
          \/ TooSmall
-         \/ \E pp \in SetChoices : MakeSets(pp)
+         \/ phase \in {"drawn", "repdone"} /\ ~SmallSample(rc, draw) /\ \E pp \in SetChoices : MakeSets(pp)
          \/ Fit \/ Predict \/ Compare \/ Ceiling \/ Store \/ Aggregate
 ESpec == EInit /\ [][ENext]_allvars
 
@@ -337,7 +338,7 @@ LightEqFull == phase = "pred" =>
 
 \* the compared data of sample i are exactly the drawn groups with multiplicity, all members of a group together
 SampleIsDraw ==
-  /\ phase # "start" =>
+  /\ phase = "drawn" =>
        /\ sample = SamplesOf(rc, draw)
        /\ \A v \in DOMAIN sample : AssocOk(sample[v]) /\ ShapeOk(sample[v])
        /\ LET s == sample[1] IN
@@ -347,7 +348,7 @@ SampleIsDraw ==
           /\ rc.bootP => \A g \in Range(PDesc(Source, rc.byP)) :
                 Count(PDesc(s, rc.byP), g) = Count(Pidx(rc, draw), g) * Count(PDesc(Source, rc.byP), g)
           /\ ~rc.bootP => s.pats = Source.pats
-  /\ \A k \in Cells :
+  /\ phase \in {"stored", "done"} => \A k \in Cells :
        LET ss == SamplesOf(rc, log[k[1]].d)[k[5]]  c == ev[k] IN
        /\ Range(c.data.rows) \subseteq Range(ss.rows) /\ Range(c.data.conds) \subseteq Range(ss.pats)
        /\ rc.cv = "none" /\ rc.routine # "fixed" => c.data.rows = ss.rows /\ c.data.conds = ss.pats
@@ -393,7 +394,7 @@ OkMask == agg.done /\ rc.routine # "crossval" =>
   /\ StoresNc(rc) => \A k \in DOMAIN nc : (k[1] \in agg.ok) <=> nc[k].kind # "nan"
 
 \* d: the ceiling stored for (i, r, v) is that of the object evaluated in (i, r, v)
-CeilingSameSample ==
+CeilingSameSample == phase \in {"stored", "done"} =>
   \A k \in DOMAIN nc : nc[k].kind # "nan" =>
      LET n == nc[k] IN
      IF k[1] = 0 THEN n.rows = Source.rows /\ n.conds = Source.pats /\ n.kind = "loo"
